@@ -301,26 +301,35 @@ class TinyExec:
             if hasattr(base, n.attr) and (not callable(getattr(base, n.attr)) or isinstance(base, Fake)):
                 return getattr(base, n.attr)
             raise Unsupported("attribute %s" % n.attr)
-        if isinstance(n, (ast.ListComp, ast.SetComp, ast.GeneratorExp, ast.DictComp)) and len(n.generators) == 1:
-            g = n.generators[0]
+        if isinstance(n, (ast.ListComp, ast.SetComp, ast.GeneratorExp, ast.DictComp)):
             out = []
-            for item in self.ev(g.iter, env, so):
-                e2 = dict(env)
-                if isinstance(g.target, ast.Name):
-                    e2[g.target.id] = item
-                elif isinstance(g.target, ast.Tuple) and all(isinstance(e_, ast.Name) for e_ in g.target.elts):
+
+            def bind(target, item, e2):
+                if isinstance(target, ast.Name):
+                    e2[target.id] = item
+                elif isinstance(target, ast.Tuple) and all(isinstance(e_, ast.Name) for e_ in target.elts):
                     item = tuple(item)
-                    if len(item) != len(g.target.elts):
+                    if len(item) != len(target.elts):
                         raise Unsupported("comprehension target arity")
-                    for e_, v_ in zip(g.target.elts, item):
+                    for e_, v_ in zip(target.elts, item):
                         e2[e_.id] = v_
                 else:
                     raise Unsupported("comprehension target")
-                if all(self.ev(c, e2, so) for c in g.ifs):
+
+            def gen(k, e1):
+                if k == len(n.generators):
                     if isinstance(n, ast.DictComp):
-                        out.append((self.ev(n.key, e2, so), self.ev(n.value, e2, so)))
+                        out.append((self.ev(n.key, e1, so), self.ev(n.value, e1, so)))
                     else:
-                        out.append(self.ev(n.elt, e2, so))
+                        out.append(self.ev(n.elt, e1, so))
+                    return
+                g = n.generators[k]
+                for item in self.ev(g.iter, e1, so):
+                    e2 = dict(e1)
+                    bind(g.target, item, e2)
+                    if all(self.ev(c, e2, so) for c in g.ifs):
+                        gen(k + 1, e2)
+            gen(0, dict(env))
             if isinstance(n, ast.DictComp):
                 return dict(out)
             return set(out) if isinstance(n, ast.SetComp) else out
